@@ -457,14 +457,14 @@ def units(draw: Any, feat: Optional[Features] = None) -> Unit:
     if feat.prune_unused_imports:
         prune_unused_imports(b.unit)
     if feat.shared_nested_names and feat.nested and feat.enums and draw(st.integers(0, 2)) == 0:
-        share_nested_names(draw, b.unit)
+        share_nested_names(draw, b.unit, feat)
     return b.unit
 
 
 SHARED_NAMES = ["Kind", "Mode", "Sample", "Inner", "State"]
 
 
-def share_nested_names(draw: Any, unit: Unit) -> int:
+def share_nested_names(draw: Any, unit: Unit, feat: Optional[Features] = None) -> int:
     """Give sibling messages of one file like-named nested definitions used the same way (a common
     idiom: `Imu.Sample[3]`, `Baro.Sample[3]`): nested definitions of different, non-nested parents are
     renamed to (or created under) ONE shared short name, and each parent gets an array field of it with
@@ -500,7 +500,8 @@ def share_nested_names(draw: Any, unit: Unit) -> int:
                     dd.parent_file = f  # type: ignore
                     dd.is_nested = True  # type: ignore
                 else:
-                    dd = Message(new, False, [Field("alt", TBase("uint", widths[k]), 1), Field("lat", TBase("int", widths[(k + 1) % len(widths)]), 2)])
+                    second = TBase("int", widths[(k + 1) % len(widths)]) if (feat is None or feat.signed_nonstd) else TBase("int", 16)
+                    dd = Message(new, False, [Field("alt", TBase("uint", widths[k]), 1), Field("lat", second, 2)])
                 p.items.insert(0, dd)
             used_names = {it.name for it in p.items}
             fname = next(w for w in reversed(FIELD_WORDS) if w not in used_names)
